@@ -58,7 +58,30 @@ finally:
     shutil.rmtree(wt, ignore_errors=True)
 
 verdict = None
-if ok and "--no-check" not in sys.argv:
+if ok and "--no-check" not in sys.argv and "--par" in sys.argv:
+    # the patch goes into a scratch worktree that the check reads through VERIF_REPO (evidence of such runs goes to
+    # .cache/evidence_alt/, replays are removed afterwards): lets several seeds be examined while other checks use /repo
+    wt2 = tempfile.mkdtemp(prefix="seedrepo-", dir="/tmp")
+    os.rmdir(wt2)
+    try:
+        rc, out = sh("git -C /repo worktree add -q --detach %s HEAD" % wt2)
+        assert rc == 0, out
+        rc, out = sh("git apply %s" % os.path.abspath(os.path.join(src, "patch.diff")), cwd=wt2)
+        assert rc == 0, out
+        for extra_f in ("Cargo.lock",):  # not tracked by git
+            if os.path.exists(os.path.join("/repo", extra_f)) and not os.path.exists(os.path.join(wt2, extra_f)):
+                shutil.copy2(os.path.join("/repo", extra_f), os.path.join(wt2, extra_f))
+        t0 = time.time()
+        env["VERIF_REPO"] = wt2
+        rc, out = sh("./check %s --tier %s" % (prop, tier), cwd=V, timeout=7200)
+        env.pop("VERIF_REPO")
+        lines = [l for l in out.split("\n") if l.startswith(("VIOLATION", "INCONCLUSIVE", "PASS", "KNOWN", "  unit="))]
+        verdict = dict(cmd="VERIF_REPO=<worktree of /repo with the patch> ./check %s --tier %s" % (prop, tier), exit=rc, seconds=round(time.time() - t0), lines=[l[:400] for l in lines[:8]])
+        ran.append("patch applied in a scratch worktree; VERIF_REPO=<it> ./check %s --tier %s -> exit %d" % (prop, tier, rc))
+    finally:
+        sh("git -C /repo worktree remove --force %s" % wt2)
+        shutil.rmtree(wt2, ignore_errors=True)
+elif ok and "--no-check" not in sys.argv:
     rc, out = sh("git -C /repo apply %s" % os.path.abspath(os.path.join(src, "patch.diff")))
     assert rc == 0, out
     evf = os.path.join(V, "evidence", prop + ".json")
